@@ -628,10 +628,26 @@ pub struct ManifestIterator {
 impl ManifestIterator {
     /// Open the iterator to read `path`.
     pub fn open<P: AsRef<Path>>(path: P) -> Result<Self, SError> {
-        if path.as_ref().is_dir() {
+        // NOTE:  Path::is_dir and Path::is_file answer false for every error of the underlying
+        // stat, so a transient I/O error would read as "there is no MANIFEST" and the caller would
+        // go on with an empty state (and Manifest::open would roll that empty state over the
+        // file).  Only a file that is not there counts as absent.
+        let md = match metadata(path.as_ref()) {
+            Ok(md) => md,
+            Err(err) if err.kind() == std::io::ErrorKind::NotFound => {
+                return Ok(Self {
+                    file: None,
+                    poison: None,
+                });
+            }
+            Err(err) => {
+                return Err(err.into());
+            }
+        };
+        if md.is_dir() {
             return Err(corruption("MANIFEST file is a directory"));
         }
-        if !path.as_ref().is_file() {
+        if !md.is_file() {
             return Ok(Self {
                 file: None,
                 poison: None,
